@@ -1897,3 +1897,149 @@ theorem transformIns_spacing_sign (m : Aff) (i i' : Ins) (h : transformIns m i =
       · simp at h
 
 end EzdxfVerif.Render
+
+/-! ### final round: lawful = no reference raises -/
+
+namespace EzdxfVerif.Render
+
+theorem lawful_iff_failing_nil (f : Forest) : ∀ m : Aff, f.scalesNZ = true → (f.lawful m = true ↔ f.failing m = []) := by
+  refine Forest.rec (motive_1 := fun t => ∀ m : Aff, (Forest.cons t .nil).scalesNZ = true →
+      ((Forest.cons t .nil).lawful m = true ↔ (Forest.cons t .nil).failing m = []))
+    (motive_2 := fun f => ∀ m : Aff, f.scalesNZ = true → (f.lawful m = true ↔ f.failing m = [])) ?_ ?_ ?_ ?_ f
+  · intro k p pts m _; simp [Forest.lawful, Forest.failing]
+  · intro i base ch ih m hnz
+    simp only [Forest.scalesNZ, Bool.and_eq_true, decide_eq_true_eq, Bool.and_true] at hnz
+    obtain ⟨⟨hsx, hsy⟩, hch⟩ := hnz
+    simp only [Forest.lawful, Forest.failing, Bool.and_true, List.append_nil]
+    cases hti : transformIns m i with
+    | error e => simp
+    | ok i' =>
+      obtain ⟨f1, f2, _⟩ := transformIns_ok_fields m i i' hti
+      have hag := cells_transform m i i' base hti hsx hsy
+      simp only [f1, f2, hag, decide_true, Bool.true_and, List.all_eq_true, List.flatMap_eq_nil_iff]
+      constructor
+      · intro h c hc; exact (ih _ hch).mp (h c hc)
+      · intro h c hc; exact (ih _ hch).mpr (h c hc)
+  · intro m _; simp [Forest.lawful, Forest.failing]
+  · intro t rest iht ihr m hnz
+    have hsplit : (Forest.cons t rest).scalesNZ = ((Forest.cons t .nil).scalesNZ && rest.scalesNZ) := by
+      cases t <;> simp [Forest.scalesNZ]
+    have hl : (Forest.cons t rest).lawful m = ((Forest.cons t .nil).lawful m && rest.lawful m) := by
+      cases t <;> simp [Forest.lawful]
+    have hf : (Forest.cons t rest).failing m = (Forest.cons t .nil).failing m ++ rest.failing m := by
+      cases t <;> simp [Forest.failing]
+    rw [hsplit, Bool.and_eq_true] at hnz
+    rw [hl, hf, Bool.and_eq_true, List.append_eq_nil_iff, iht m hnz.1, ihr m hnz.2]
+
+theorem failing_reason (f : Forest) : ∀ (m : Aff) (p : Ins × Err), p ∈ f.failing m → (p.2 = .fallback ∨ Outside p.2) ∧ 
+    ∃ acc, transformIns acc p.1 = .error p.2 := by
+  refine Forest.rec (motive_1 := fun t => ∀ (m : Aff) (p : Ins × Err), p ∈ (Forest.cons t .nil).failing m →
+      (p.2 = .fallback ∨ Outside p.2) ∧ ∃ acc, transformIns acc p.1 = .error p.2)
+    (motive_2 := fun f => ∀ (m : Aff) (p : Ins × Err), p ∈ f.failing m →
+      (p.2 = .fallback ∨ Outside p.2) ∧ ∃ acc, transformIns acc p.1 = .error p.2) ?_ ?_ ?_ ?_ f
+  · intro k p pts m q hq; simp [Forest.failing] at hq
+  · intro i base ch ih m q hq
+    simp only [Forest.failing, List.append_nil] at hq
+    cases hti : transformIns m i with
+    | error e =>
+      rw [hti] at hq; simp at hq; subst hq
+      exact ⟨transformIns_err m i e hti, m, hti⟩
+    | ok i' =>
+      rw [hti] at hq
+      simp only [List.mem_flatMap] at hq
+      obtain ⟨c, _, hc⟩ := hq
+      exact ih _ q hc
+  · intro m q hq; simp [Forest.failing] at hq
+  · intro t rest iht ihr m q hq
+    have hf : (Forest.cons t rest).failing m = (Forest.cons t .nil).failing m ++ rest.failing m := by
+      cases t <;> simp [Forest.failing]
+    rw [hf] at hq
+    rcases List.mem_append.mp hq with h | h
+    · exact iht m q h
+    · exact ihr m q h
+
+
+end EzdxfVerif.Render
+
+/-! ### final round: a layout is drawn entity by entity -/
+
+namespace EzdxfVerif.Render
+
+theorem drawList_append (one : Ent → State → Res) : ∀ (a b : List Ent) (st : State),
+    drawList one (a ++ b) st =
+      match drawList one a st with
+      | .error x => .error x
+      | .ok (o1, st1) =>
+        match drawList one b st1 with
+        | .error x => .error x
+        | .ok (o2, st2) => .ok (o1 ++ o2, st2) := by
+  intro a
+  induction a with
+  | nil =>
+    intro b st
+    simp only [List.nil_append, drawList]
+    cases drawList one b st with
+    | error x => rfl
+    | ok v => obtain ⟨o, s⟩ := v; simp
+  | cons e es ih =>
+    intro b st
+    simp only [List.cons_append, drawList]
+    cases h1 : one e st with
+    | error x => rfl
+    | ok v =>
+      obtain ⟨o1, st1⟩ := v
+      simp only [ih b st1]
+      cases h2 : drawList one es st1 with
+      | error x => rfl
+      | ok v2 =>
+        obtain ⟨o2, st2⟩ := v2
+        simp only
+        cases h3 : drawList one b st2 with
+        | error x => rfl
+        | ok v3 => obtain ⟨o3, st3⟩ := v3; simp [List.append_assoc]
+
+/-- the primitives of a layout are the concatenation of the primitives of its entities, each drawn on its own -/
+theorem drawLayout_split (doc : Doc) (ctx : Ctx) (pre post : List Ent) (e : Ent) (out : List Prim) (st : State)
+    (h : drawLayout doc ctx (pre ++ e :: post) = .ok (out, st)) :
+    ∃ o1 o2 o3, drawLayout doc ctx pre = .ok (o1, State.init) ∧ drawLayout doc ctx [e] = .ok (o2, State.init) ∧
+      drawLayout doc ctx post = .ok (o3, State.init) ∧ out = o1 ++ o2 ++ o3 ∧ st = State.init := by
+  simp only [drawLayout, drawEnts_eq] at h ⊢
+  rw [drawList_append] at h
+  cases h1 : drawList (drawOne doc ctx (subOf doc ctx (doc.blocks.length + 1)) (doc.blocks.length + 1 - 1) 0) pre State.init with
+  | error x => rw [h1] at h; simp at h
+  | ok v1 =>
+    obtain ⟨o1, st1⟩ := v1
+    have hs1 : st1 = State.init := inv_drawList (inv_stack ctx) _
+      (inv_drawOne (inv_stack ctx) doc _ (by
+        intro f hf; simp [subOf] at hf; subst hf
+        exact fun h ents st o st' hh => inv_drawEnts (inv_stack ctx) doc _ h ents st o st' hh) _ 0) _ _ _ _ h1
+    subst hs1
+    rw [h1] at h
+    simp only at h
+    have hsplit : e :: post = [e] ++ post := rfl
+    rw [hsplit, drawList_append] at h
+    cases h2 : drawList (drawOne doc ctx (subOf doc ctx (doc.blocks.length + 1)) (doc.blocks.length + 1 - 1) 0) [e] State.init with
+    | error x => rw [h2] at h; simp at h
+    | ok v2 =>
+      obtain ⟨o2, st2⟩ := v2
+      have hs2 : st2 = State.init := inv_drawList (inv_stack ctx) _
+        (inv_drawOne (inv_stack ctx) doc _ (by
+          intro f hf; simp [subOf] at hf; subst hf
+          exact fun h ents st o st' hh => inv_drawEnts (inv_stack ctx) doc _ h ents st o st' hh) _ 0) _ _ _ _ h2
+      subst hs2
+      rw [h2] at h
+      simp only at h
+      cases h3 : drawList (drawOne doc ctx (subOf doc ctx (doc.blocks.length + 1)) (doc.blocks.length + 1 - 1) 0) post State.init with
+      | error x => rw [h3] at h; simp at h
+      | ok v3 =>
+        obtain ⟨o3, st3⟩ := v3
+        have hs3 : st3 = State.init := inv_drawList (inv_stack ctx) _
+          (inv_drawOne (inv_stack ctx) doc _ (by
+            intro f hf; simp [subOf] at hf; subst hf
+            exact fun h ents st o st' hh => inv_drawEnts (inv_stack ctx) doc _ h ents st o st' hh) _ 0) _ _ _ _ h3
+        subst hs3
+        rw [h3] at h
+        simp at h
+        exact ⟨o1, o2, o3, rfl, rfl, rfl, by rw [← h.1, List.append_assoc], h.2.symm⟩
+
+end EzdxfVerif.Render
